@@ -54,7 +54,7 @@ UnlimitedKept(f, g) ==
 
 \* ------------------------------------------------------------- comparison
 \* mode "full": everything a structural operation carries; "val": data only
-ValsEq(g, e) == /\ g.enc = e.enc
+ValsEq(g, e) == /\ (g.enc = e.enc \/ Len(e.vals) = 0)
                 /\ Len(g.vals) = Len(e.vals)
                 /\ \A k \in 1..Len(e.vals) : e.mask[k] \/ g.vals[k] = e.vals[k]
 
@@ -86,12 +86,13 @@ VarDiff(g, e, mode) ==
   ELSE IF g.shape # e.shape THEN "shape"
   ELSE IF mode = "val" /\ e.enc = "num" /\ ~AllRep(e, g.dt) THEN ""
   ELSE IF "freecells" \in DOMAIN e
-       THEN (IF g.enc # e.enc THEN "encoding"
+       THEN (IF g.enc # e.enc /\ Len(e.mask) > 0 THEN "encoding"
              ELSE IF \E k \in 1..Len(e.mask) : ~e.freecells[k] /\ g.mask[k] # e.mask[k] THEN "mask"
              ELSE IF \E k \in 1..Len(e.mask) : ~e.freecells[k] /\ ~e.mask[k] /\ g.vals[k] # e.vals[k] THEN "values"
              ELSE "")
   ELSE IF g.mask # e.mask THEN "mask"
-  ELSE IF g.enc # e.enc THEN "encoding"
+  \* (an array without cells has no encoding to compare)
+  ELSE IF g.enc # e.enc /\ Len(e.mask) > 0 THEN "encoding"
   ELSE IF ~ValsEq(g, e) THEN "values"
   ELSE IF mode \in {"full", "fullfv"} /\ g.dt # e.dt THEN "dtype"
   \* the fill_value attribute is the library's encoding of "this variable is
